@@ -25,10 +25,11 @@ func init() {
 		Run:   runC01,
 		Rule: "case = one history: 1-2 files of 1-40 chunks (chunk size 1/16/1024, replication 1-4), 2 honest and 2-3 dishonest accounts, 10-24 proof submissions drawn from 14 payload classes (honest control + 13 mutation classes), every submission followed by reward blocks with live gauges; " +
 			"oracle per submission: reference verifier (independent Merkle/leaf implementation + challenge read through the Proof query just before) says invalid => (File.Proofs, all ProofsByAddress(signer), signer balance) digest unchanged and Success=false; per reward block: hooked counted bytes of every prover <= bytes of files it has validly proven at least once and <= bytes of files whose last accepted valid proof (by the monitor's own record) lies in the previous full window or later, storage-module payees subset of validly-proven provers; " +
-			"non-trivial signature = payload class x {newcomer,listed} x {room,full} of a reference-invalid submission that was followed by a reward block releasing tokens",
+			"every fifth case is the attestation family: two provers of one file go silent, at the first block of the second window after their proofs one of them gets a unanimous attestation quorum (the other, lapsed, prover signs last when it is named), and at the following reward blocks only the one the quorum was for may still be counted or paid; " +
+			"non-trivial signature = payload class x {newcomer,listed} x {room,full} of a reference-invalid submission that was followed by a reward block releasing tokens, or (attestation family) (W, C, form size, lapsed co-prover completes the quorum, quorum reached)",
 		Assumptions: []string{
 			"SHA-256 / SHA3-512 collision resistance (a payload that the reference verifier rejects cannot verify on chain by accident)",
-			"attestation quorums are exercised under C14; here prover status is gained by proofs only",
+			"the quorum rules themselves (who is named, how many distinct signers) are C14's; the attestation family here only uses unanimous forms (minimum == form size) and judges who stays credited afterwards",
 		},
 		MinNonTriv: 18,
 	})
@@ -67,6 +68,10 @@ func (w *c01World) digest(signer string, wf *WFile) string {
 }
 
 func runC01(rc *RunCtx) {
+	if rc.Case%5 == 4 {
+		runC01Attest(rc)
+		return
+	}
 	W := int64(3 + rc.Intn(4))
 	C := int64(2 + rc.Intn(4))
 	chunk := []int64{1, 16, 1024}[rc.Intn(3)]
@@ -406,4 +411,172 @@ func clip(s string) string {
 		return string(b[:500]) + "..."
 	}
 	return string(b)
+}
+
+// runC01Attest: the other way of staying credited - a completed attestation quorum. Two provers P and A hold valid
+// proofs of one file and then both stop proving. At the first block of the second window after their proofs (when a
+// reward block would drop both) P asks for an attestation form and every provider named on it signs, A last if it is
+// named. The quorum is for P: from then on P is credited as if it had proven at that height; nobody else's record may
+// be refreshed by it. The reward-block oracle is the one of runC01 (hooked counted bytes of a prover never exceed the
+// files for which its last valid proof, or completed quorum, is recent enough).
+func runC01Attest(rc *RunCtx) {
+	W := int64(3 + rc.Intn(4))
+	C := int64(2 + rc.Intn(4))
+	fs := int64(1 + rc.Intn(2))
+	sp := storageParams(W, C, 1024)
+	sp.CollateralPrice = 1000
+	sp.AttestFormSize = fs
+	sp.AttestMinToPass = fs
+	c, err := chain.New(chain.Config{Seed: rc.Seed, NAcc: 5, Storage: sp})
+	if err != nil {
+		rc.Abort("init: " + err.Error())
+		return
+	}
+	defer c.Close()
+	s := &SW{rc: rc, c: c}
+	const P, A = 1, 2
+	lastValid := map[string]int64{} // prover address -> height of its last valid proof / completed quorum on F
+	var wf *WFile
+	quorumAt := int64(-1)
+	step := func() bool {
+		ro, err := s.StepBlock(6 * time.Second)
+		if err != nil {
+			if pe, ok := err.(*chain.PanicError); ok {
+				rc.Abort("BeginBlock panic (C05 territory): " + pe.Value)
+			} else {
+				rc.Abort(err.Error())
+			}
+			return false
+		}
+		if !ro.IsReward || wf == nil {
+			return true
+		}
+		rc.Eval(1)
+		var f *storagetypes.UnifiedFile
+		for i := range ro.Pre.Files {
+			if fileKey(ro.Pre.Files[i]) == wf.Key() {
+				f = &ro.Pre.Files[i]
+			}
+		}
+		if f == nil {
+			return true
+		}
+		for _, who := range []int{P, A} {
+			addr := c.Accs[who].Bech
+			got := ro.Counted[addr]
+			lv, ever := lastValid[addr]
+			fresh := ever && (ro.Height <= f.Start+W || lv >= f.Start+((ro.Height-f.Start)/W-1)*W)
+			// the only other file in this world is proven by other accounts, so anything counted for P / A is F
+			if got > 0 && !fresh {
+				rc.Fail("C01/credited-after-proofs-lapsed/attestation", "h=%d (file start %d, window %d): acc%d is counted for %d bytes at the reward block, but its last valid proof or completed attestation quorum on the file was at height %d (quorum for acc%d completed at %d)", ro.Height, f.Start, W, who, got, lv, P, quorumAt)
+			}
+			if coins := ro.Paid[addr]; !coins.IsZero() && !fresh {
+				rc.Fail("C01/paid-after-proofs-lapsed/attestation", "h=%d: acc%d received %s although neither a valid proof nor a completed quorum of its own is recent enough (last at %d)", ro.Height, who, coins, lv)
+			}
+		}
+		return true
+	}
+	if !step() {
+		return
+	}
+	if r := s.BuyPlan(0, 0, 30_000_000_000_000, 400, ""); !r.OK() {
+		rc.Abort("buy: " + r.Log)
+		return
+	}
+	for p := 1; p <= 4; p++ {
+		if r := s.InitProvider(p, fmt.Sprintf("https://n%d.dom%d.example", p, p)); !r.OK() {
+			rc.Abort("provider: " + r.Log)
+			return
+		}
+	}
+	// reach a start height whose window 2 does not begin on a reward height (the attestation must come before the
+	// reward block that would drop the lapsed provers)
+	for (c.Height+2*W)%C == 0 {
+		if !step() {
+			return
+		}
+	}
+	f := gen.NewFile(randBytes(rc.Rng, int64(1+rc.Intn(5000))), 1024)
+	g := gen.NewFile(randBytes(rc.Rng, int64(1+rc.Intn(5000))), 1024)
+	var r chain.TxResult
+	if wf, r = s.PostFile(0, f, 4, 0, -1); !r.OK() {
+		rc.Abort("post: " + r.Log)
+		return
+	}
+	wg, r := s.PostFile(0, g, 4, 0, -1)
+	if !r.OK() {
+		rc.Abort("post: " + r.Log)
+		return
+	}
+	for _, who := range []int{P, A} {
+		if pr := s.ProveHonest(who, wf); !pr.Success {
+			rc.Abort("join: " + pr.ErrMsg)
+			return
+		}
+		lastValid[c.Accs[who].Bech] = c.Height
+	}
+	for _, who := range []int{3, 4} {
+		s.ProveHonest(who, wg)
+	}
+	S := wf.Start
+	// the other providers keep their proofs on G fresh (they must stay active to be eligible); P and A go silent
+	for c.Height < S+2*W {
+		for _, who := range []int{3, 4} {
+			s.ProveHonest(who, wg)
+		}
+		if !step() {
+			return
+		}
+	}
+	// first block of window 2, before any reward block of that window
+	tx := c.DeliverAs(P, &storagetypes.MsgRequestAttestationForm{Creator: c.Accs[P].Bech, Merkle: f.Root(), Owner: wf.OwnerAddr, Start: wf.Start})
+	var resp storagetypes.MsgRequestAttestationFormResponse
+	if !tx.OK() || tx.MsgResponse(0, &resp) != nil || !resp.Success {
+		rc.Logf("h=%d attestation form refused: %s %s", c.Height, clip(tx.Log), resp.Error)
+		rc.Count("attest_form_refused", 1)
+		for i := int64(0); i < W+C; i++ {
+			if !step() {
+				return
+			}
+		}
+		rc.NonTrivial(fmt.Sprintf("attest/W%d/C%d/form%d/refused", W, C, fs))
+		return
+	}
+	var signers []int
+	aNamed := false
+	for _, a := range resp.Providers {
+		for i := 1; i <= 4; i++ {
+			if c.Accs[i].Bech == a && i != A {
+				signers = append(signers, i)
+			}
+		}
+		if a == c.Accs[A].Bech {
+			aNamed = true
+		}
+	}
+	if aNamed {
+		signers = append(signers, A) // the lapsed co-prover completes the quorum
+	}
+	all := int64(len(signers)) == fs
+	for _, i := range signers {
+		r := c.DeliverAs(i, &storagetypes.MsgAttest{Creator: c.Accs[i].Bech, Prover: c.Accs[P].Bech, Merkle: f.Root(), Owner: wf.OwnerAddr, Start: wf.Start})
+		rc.Logf("h=%d attest by acc%d -> code %d %s", c.Height, i, r.Code, failLog(r))
+		all = all && r.OK()
+	}
+	if all {
+		quorumAt = c.Height
+		lastValid[c.Accs[P].Bech] = c.Height
+		rc.Count("attestation_quorums_completed", 1)
+	}
+	rc.Logf("h=%d form named %d providers (co-prover named: %v), quorum complete: %v", c.Height, len(resp.Providers), aNamed, all)
+	for i := int64(0); i < W+C+1; i++ {
+		for _, who := range []int{3, 4} {
+			s.ProveHonest(who, wg)
+		}
+		if !step() {
+			return
+		}
+	}
+	rc.NonTrivial(fmt.Sprintf("attest/W%d/C%d/form%d/co-prover-completes=%v/quorum=%v", W, C, fs, aNamed, all))
+	rc.Sample(map[string]interface{}{"family": "attestation", "W": W, "C": C, "form": fs, "start": S, "quorum_at": quorumAt, "co_prover_named": aNamed})
 }
